@@ -61,6 +61,9 @@ def metadata_ast(run: Run):
     T("client-entries-created-per-transport-regardless-of-methods", ok)
     if not ok:
         return
+    if not all(isinstance(e, ast.Name) for e in tl[0].target.elts):
+        T("client-entries-created-per-transport-regardless-of-methods", False, ast.unparse(tl[0].target))
+        return
     tv, cv = [e.id for e in tl[0].target.elts]
     stmts = tl[0].body
     s0 = ast.unparse(stmts[0]) if stmts else ""
@@ -69,8 +72,8 @@ def metadata_ast(run: Run):
     tr = stmts[0].targets[0].id if stmts and isinstance(stmts[0], ast.Assign) and isinstance(stmts[0].targets[0], ast.Name) else "?"
     T("library-client-is-the-client-class-name", s1 == f"{tr}.library_client = {cv}", s1)
     ml = [s for s in stmts if isinstance(s, ast.For)]
-    ok = len(ml) == 1
-    T("every-method-recorded-for-every-client-kind", ok)
+    ok = len(ml) == 1 and isinstance(ml[0].target, ast.Name)
+    T("every-method-recorded-for-every-client-kind", ok, str([ast.unparse(x.target) + " in " + ast.unparse(x.iter) for x in ml]))
     if ok:
         mv = ml[0].target.id
         it = ast.unparse(ml[0].iter)
